@@ -39,6 +39,7 @@ type DCfg struct {
 	PNotReady     float64
 	PUninitialized float64
 	SmallPods     bool
+	OnePodPerNode bool // every workload pod claims the same host port => one workload pod per node => many nodes
 }
 
 func DefaultDCfg() DCfg {
@@ -114,6 +115,10 @@ func BuildDisruption(rng *rand.Rand, cfg DCfg) *DWorld {
 		for i := 0; i < n; i++ {
 			p := gen.RandomPod(rng, s.NextPodName("w"), podCfg)
 			gen.WithOwner("ReplicaSet", "rs-"+p.Name)(p)
+			if cfg.OnePodPerNode {
+				p.Spec.Containers[0].Ports = nil
+				gen.WithHostPort(9000, corev1.ProtocolTCP, "")(p)
+			}
 			pods = append(pods, p)
 		}
 		stages := stagesInit
